@@ -473,6 +473,10 @@ pub fn generate(case_seed: u64, focus: TxFocus, max_total: usize) -> TxCfg {
         start_delay: 0,
         end: if rng.chance(0.5) { WriterEnd::Hold } else { WriterEnd::Shutdown },
     };
+    // the write half dropped right after the last write (the tail may still be buffered)
+    if Prng::new(case_seed ^ 0xD20F_E2D).chance(0.3) {
+        writer.end = WriterEnd::Drop;
+    }
     let big = (1u32 << 20).max(8 * mss);
     let mut policy = PeerPolicy {
         sack_capable: rng.chance(0.6),
